@@ -6,7 +6,7 @@ HERE = os.path.dirname(os.path.dirname(os.path.abspath(__file__)))
 
 MC_NOTE = ("Trusted base: regex / regex-automata / regex-syntax (versions pinned equal to /repo/Cargo.lock) implement one "
            "semantics for a pattern text; the alphabet partition derived from the pattern's HIR is sound for all of Unicode; "
-           "every explored product state is replayed through the public is_match. Program size is bounded (see evidence 'bounds'); "
+           "every explored product TRANSITION (BFS tree and cross edges) is replayed through the public is_match, whose answer decides where it differs from the automaton. Program size is bounded (see evidence 'bounds'); "
            "path length is unbounded.")
 
 FS_NOTE = ("Trusted base: walkdir and the kernel's tmpfs behave as documented; readdir order on tmpfs is reverse creation order (read back for "
@@ -14,13 +14,13 @@ FS_NOTE = ("Trusted base: walkdir and the kernel's tmpfs behave as documented; r
 
 CHECKS = {
     "C02": dict(cat="exploration", tech="exhaustive enumeration of worlds x child orders x globs, real walks vs reference traversal",
-                text="Every world up to N entries over a colliding name set in every child order, every built glob up to size 3 (4 in the thorough tier) of the file-system alphabet, both link behaviours, six base spellings and rooted / ./ ../ a/../ variants are walked for real on tmpfs; the multiset of yielded files must equal the reference traversal filtered with is_match.",
+                text="Every world up to N entries over a colliding name set in every child order, every built glob up to size 3 (4 in the thorough tier) of the file-system alphabet, both link behaviours, six base spellings and rooted / ./ ../ a/../ variants are walked for real on tmpfs; the multiset of yielded files must equal the reference traversal filtered with is_match. Plus a tree with non-UTF-8 and unusual names whose expectation is read from the file system itself.",
                 ref="DESIGN.md §3 C02, §2.3", note=FS_NOTE + " is_match itself is C01's business."),
     "C03": dict(cat="model_checking", tech="explicit-state BFS of installed partition DFAs x whole-pattern DFA x ancestor monitor; exhaustive real walks",
-                text="(ii) For every negation the two installed partition programs (hook H3) are explored in product with the whole pattern and the canonical-ancestor monitor over all canonical paths: completeness and tree-discard soundness. (i) Every world (link-free, and with a symbolic link to a directory read as a file) x eight underlying walks x every negation form is walked for real and compared with per-entry filtering.",
+                text="(ii) For every negation the two installed partition programs (hook H3) are explored in product with the whole pattern and the canonical-ancestor monitor over all canonical paths: completeness and tree-discard soundness. (i) Every world (link-free, and with a symbolic link to a directory read as a file) x eight underlying walks x every negation form is walked for real and compared with per-entry filtering. (ii') The same product for every built expression of a program space of its own (shapes, substitutions, families, corpus), installed through the route a real walk takes (text, compiled, owned); every negation is also consumed directly (its own next() drives the walk) and compared with the logged run.",
                 ref="DESIGN.md §3 C03", note=MC_NOTE + " " + FS_NOTE),
     "C13": dict(cat="exploration", tech="stateless exhaustive exploration of verdict histories (deviation-bounded) over real walks",
-                text="Every world x base walk x every set of layers from the menu in every permutation x every filter verdict history with at most k departures from 'keep' (re-execution, branching on every logged call): what the downstream consumer is fed must equal the pruned-tree model; link worlds are explored reading links as files and reading link targets.",
+                text="Every world x base walk x every set of layers from the menu in every permutation x every filter verdict history with at most k departures from 'keep' (re-execution, branching on every logged call): what the downstream consumer is fed must equal the pruned-tree model; link worlds are explored reading links as files and reading link targets. Plus: every small glob walked alone (the feed must equal the traversal pruned by its component programs, and every directory they cut must be one beneath which the complete program accepts no canonical path - exhaustive automaton search); the tree-discard soundness product of C03 over the negation menus; every stack also consumed directly (outermost layer driven by next()).",
                 ref="DESIGN.md §3 C13, Appendix C", note=FS_NOTE),
     "C14": dict(cat="exploration", tech="exhaustive enumeration of worlds x globs x base spellings; entry equations on every yielded entry",
                 text="Every entry yielded by every walk of the C02 space (six base spellings, rooted variant, path walks) is checked against the entry self-consistency equations; plus fixed trees of non-UTF-8 and unusual names (backslash, meta-characters, white space) and walks with depth and link behaviours.",
@@ -29,31 +29,31 @@ CHECKS = {
                 text="Every small world with every placement of one (two) symbolic links of every target kind, ten globs with prefix lengths 0-2, both link behaviours and every (min,max) pair through every DepthBehavior constructor are walked for real; yields and link-cycle errors must equal the reference traversal with walkdir's identity-stack link policy; an item cap detects non-termination.",
                 ref="DESIGN.md §3 C15, Appendix C", note=FS_NOTE),
     "C20": dict(cat="fault_enumeration", tech="exhaustive placement of <= 2 faults x stacks; full item sequence vs reference traversal, run unprivileged",
-                text="Every placement of at most two faults (unreadable directory incl. the root, dangling link, re-entrant link) in every small world, three underlying walks, both link behaviours and combinator stacks aimed at the faulty paths (also two layers discarding the same directory); the complete ordered item sequence (entries and errors with paths and depths) must equal the reference traversal under the pruned-tree model. Runs under uid 65534 so that chmod 000 is effective.",
+                text="Every placement of at most two faults (unreadable directory incl. the root, dangling link, re-entrant link) in every small world, three underlying walks, both link behaviours and combinator stacks aimed at the faulty paths (also two layers discarding the same directory); the complete ordered item sequence (entries and errors with paths and depths) must equal the reference traversal under the pruned-tree model. Runs under uid 65534 so that chmod 000 is effective. Sequences are compared in a canonical sibling order with an order-free in-place check (contiguous runs per directory); every stack is also consumed directly; every error item converted to io::Error must still name the path.",
                 ref="DESIGN.md §3 C20", note=FS_NOTE + " Requires setpriv for permission faults (reported in the evidence when unavailable)."),
     "C16": dict(cat="exploration", tech="stateless exhaustive exploration of stacks x permutations x verdict histories over real walks",
-                text="Same exploration as C13; oracle: every filter layer is called exactly once per fed entry (also for entries discarded upstream), the yield is the set every layer keeps, identical for every permutation of the stack.",
+                text="Same exploration as C13; oracle: every filter layer is called exactly once per fed entry (also for entries discarded upstream), the yield is the set every layer keeps, identical for every permutation of the stack. Every stack is also consumed directly (the outermost layer's own next() drives the walk); items and call logs must equal those of the logged run.",
                 ref="DESIGN.md §3 C16", note=FS_NOTE),
     "C01": dict(cat="model_checking", tech="explicit-state BFS of implDFA x referenceDFA x unspecified-clause monitor, all paths",
                 text="For every built expression of the bounded program space whose documented meaning is specified, all reachable states of the product of the implementation's automaton, an independently compiled reference automaton of the documented semantics and the U1-U3 monitor are explored; any state where acceptance differs is a counterexample of unbounded length; every state is replayed through is_match. any() of pairs of patterns (text, compiled, nested routes) is decided the same way against the union of the reference languages.",
                 ref="DESIGN.md §3 C01, §2.4", note=MC_NOTE + " The reference is three-valued (U1-U5, DESIGN §2.4)."),
     "C04": dict(cat="exploration", tech="bounded-path exhaustive exploration (automaton-guided: every accepted path up to L) of Program::matched against capture laws",
-                text="For every built expression of the program space, every path up to length L over representative characters that keeps the implementation's automaton alive is visited (so every accepted path up to L is checked); matched/is_match agreement, index range, one-to-one correspondence (index and span) with the expression's capturing tokens, also on the partitioned glob, sub-slice / order / disjointness, gap languages, per-kind shape laws, the capture's own reference sub-language, owned = borrowed.",
+                text="For every built expression of the program space, every path up to length L over representative characters that keeps the implementation's automaton alive is visited (so every accepted path up to L is checked); matched/is_match agreement, index range, one-to-one correspondence (index and span) with the expression's capturing tokens, also on the partitioned glob, sub-slice / order / disjointness, gap languages, per-kind shape laws, the capture's own reference sub-language, owned = borrowed. Plus the long-path family (paths of 2^8, 2^16 (2^17, 2^20) bytes +-1 with captures beyond the boundary).",
                 ref="DESIGN.md §3 C04, Appendix E", note="Captures are not a regular property of the automaton: path length is genuinely bounded (stated in the evidence). Language laws are skipped where the documented meaning is unspecified (U1-U5)."),
     "C19": dict(cat="exploration", tech="exhaustive enumeration of conversion routes x program space; equal compiled pattern text, queries and matched text on all live paths up to L",
-                text="For every built expression every conversion route (Display+new, Clone, into_owned, FromStr, TryFrom, any of text / compiled / owned / nested, partition of owned vs borrowed) must give the same compiled pattern (hook H1), the same answer to every query and the same matched text at every index (borrowed, to_owned, into_owned) on every live path up to length L.",
+                text="For every built expression every conversion route (Display+new, Clone, into_owned, FromStr, TryFrom, any of text / compiled / owned / nested, partition of owned vs borrowed) must give the same compiled pattern (hook H1), the same answer to every query and the same matched text at every index (borrowed, to_owned, into_owned) on every live path up to length L. Plus the long-path family and the partitioned glob displayed and rebuilt (same captures wherever both match).",
                 ref="DESIGN.md §3 C19", note="Equal pattern text implies equal language and group structure (same regex front end); path length bounded for matched text."),
     "C05": dict(cat="exploration", tech="exhaustive short strings + closed bound / depth families in isolated worker processes; every public operation",
-                text="Every string up to length L over the 22-symbol meta alphabet, every expression of the program space, the closed family of repetition bounds at and beyond the machine word and the closed family of nesting depths / widths (isolated in worker processes with address-space and CPU limits so that an abort is observed, not suffered): build, then every public operation and six candidate paths on every built glob; no panic, no abort, errors only of the three documented kinds, and a compile error only for a program that is not certainly below the back end's limits.",
+                text="Every string up to length L over the 22-symbol meta alphabet, every expression of the program space, the closed family of repetition bounds at and beyond the machine word and the closed family of nesting depths / widths (isolated in worker processes with address-space and CPU limits so that an abort is observed, not suffered): build, then every public operation and six candidate paths on every built glob; no panic, no abort, errors only of the three documented kinds, and a compile error only for a program that is not certainly below the back end's limits. Plus S5 the combinator family (every combinator tree of depth <= 3, arity 0..2) and S6 the alignment family (a multi-byte character at every byte offset 0..=70 around 19 constructs, through Glob::new, FromStr and any).",
                 ref="DESIGN.md §3 C05", note="Trusted base: catch_unwind observes every panic; a worker that dies on a signal is attributed to the case in flight. A CPU-limit kill is reported as inconclusive, not as a verdict."),
     "C17": dict(cat="exploration", tech="exhaustive short strings (with multi-byte characters) + program space; span validity and reference token spans",
-                text="Every string up to length L over the meta alphabet with 金 and é and every expression of the program space: all spans of all build errors lie inside the expression on character boundaries and slice without panicking; capture spans of every built glob and of its partition equal the reference parser's token spans.",
+                text="Every string up to length L over the meta alphabet with 金 and é and every expression of the program space: all spans of all build errors lie inside the expression on character boundaries and slice without panicking; capture spans of every built glob and of its partition equal the reference parser's token spans. Plus the alignment family (multi-byte character at every byte offset 0..=70 around 19 constructs).",
                 ref="DESIGN.md §3 C17", note="Trusted base: the reference parser's token spans (print/parse round trip checked); a span extended left over adjacent flag groups is accepted."),
     "C06": dict(cat="exploration", tech="bounded-exhaustive enumeration of the expression grammar vs a compositional three-valued reference rule checker",
                 text="Every expression of the documented syntax up to the size bound (all arrangements of branches nested to depth 3 at every position, every combination of sibling branches), the reduced alphabet at larger sizes, the rule alphabet {a, /, *, **} and the boundary alphabet {a, /} at still larger sizes (7 / 9), the corpus and the size family: Glob::new(e).is_ok() must equal the verdict of a reference that evaluates the documented rules over all expansions (not by neighbour inspection); every built glob must report has_root() != Sometimes.",
                 ref="DESIGN.md §3 C06, Appendix D", note="Trusted base: the reference rule checker is right where it is specified (three-valued: unspecified bands are excluded and counted); error kinds are not compared."),
     "C07": dict(cat="model_checking", tech="explicit-state BFS of the product of the implementation's own DFAs of related expressions",
-                text="Algebraic laws between compiled programs, no reference semantics: for every branch site of every built expression the substitution / unrolling family, wrappings of the whole and of sub-sequences, and any() over four construction routes; all reachable tuples of the product of the members' automata.",
+                text="Algebraic laws between compiled programs, no reference semantics: for every branch site of every built expression the substitution / unrolling family, wrappings of the whole and of sub-sequences, and any() over four construction routes; all reachable tuples of the product of the members' automata. Plus a combinator of ONE pattern against the braces-wrapped pattern for every expression of a program space (the routes rebuild the token tree), and the union law on the combinator family (arity 0..2, depth <= 3).",
                 ref="DESIGN.md §3 C07", note=MC_NOTE),
     "C08": dict(cat="model_checking", tech="explicit-state BFS of DFA(original) x DFA(prefix.postfix) on canonical paths; replay through Path::strip_prefix",
                 text="For every built expression: Glob::partition; the law is decided on all reachable canonical states of DFA(original) x DFA(prefix followed by postfix) and every such state is replayed through the real Path::strip_prefix and postfix matcher; plus never-rooted, idempotence, suffix text, rebuild equivalence and capture spans.",
